@@ -117,6 +117,9 @@ def main():
                     # the code is decided by the correspondence run below (model vs implementation on every case)
                     notes.append("translator: section '%s' could not be regenerated (%s); its last regenerated values are "
                                  "validated by the correspondence run only" % (sec, err))
+            for name, what in translate_tables.UNLOCATED:
+                notes.append("translator: the form behind flag %s (%s) was neither recognised nor contradicted; the value of the last "
+                             "regeneration is kept and that form is validated by the correspondence run only" % (name, what))
         except Exception as e:  # a table that can no longer be located is a broken tie
             tie_ok = False
             notes.append("translator failed: %r" % (e,))
